@@ -55,11 +55,13 @@ def invariants(run, w, label, owner_fn):
     D = I.D
     o = w.obj
     mod, fn = owner_fn
-    iv, sl, ic = o.attrs.get('intervals'), o.attrs.get('slopes'), o.attrs.get('_intercepts')
-    ok_lists = all(isinstance(v, ListV) for v in (iv, sl, ic)) and len(iv) == len(sl) == len(ic) == len(w.pairs)
+    # only the documented attributes are read; how (and under which name) the intercepts are stored is private -
+    # continuity is decided on the values get_UoRT returns
+    iv, sl = o.attrs.get('intervals'), o.attrs.get('slopes')
+    ok_lists = all(isinstance(v, ListV) for v in (iv, sl)) and len(iv) == len(sl) == len(w.pairs)
     if not run.check(ok_lists, 'PAIR.lengths', 'PiecewiseCovEffect', label,
-                     'intervals, slopes and intercepts must have the same length as the number of breakpoints '
-                     '(%d): %s / %s / %s' % (len(w.pairs), show(iv, 60), show(sl, 60), show(ic, 60)), mod, fn):
+                     'intervals and slopes must have the same length as the number of breakpoints '
+                     '(%d): %s / %s' % (len(w.pairs), show(iv, 60), show(sl, 60)), mod, fn):
         return False
     # ascending order and pairing
     ok_order = all(same(a, p[0]) for a, p in zip(iv.items, w.pairs))
@@ -72,14 +74,12 @@ def invariants(run, w, label, owner_fn):
               % (show(sl, 120), show(ListV([p[1] for p in w.pairs]), 120)), mod, fn)
     if not (ok_order and ok_pair):
         return False
-    # continuity recurrence, starts at zero
-    ok = same(ic.items[0], C(0))
+    # reference intercepts: 0 for the first piece, then the continuity recurrence at every breakpoint
+    ic_items = [C(0)]
     for k in range(1, len(w.pairs)):
-        xk = iv.items[k]
-        ok = ok and same(sl.items[k - 1] * xk + ic.items[k - 1], sl.items[k] * xk + ic.items[k])
-    run.check(ok, 'REF.continuity', 'PiecewiseCovEffect._set_intercepts', label,
-              'intercepts %s do not make consecutive pieces agree at the breakpoints (or the first is not 0)'
-              % show(ic, 160), mod, fn)
+        xk = w.pairs[k][0]
+        ic_items.append(ic_items[k - 1] + (w.pairs[k - 1][1] - w.pairs[k][1]) * xk)
+    ic = ListV(ic_items)
     # evaluation on, between and beyond the breakpoints
     T = D.sym('T')
     Rk = D.sym('kb') * D.sym('Na') * D.sym('U<kcal>')
@@ -103,9 +103,12 @@ def invariants(run, w, label, owner_fn):
             k2 = min(i for i, rr in enumerate(rk) if rr == r)
             alt = [(sl.items[j] * x + ic.items[j]) / (Rk * T) for j in range(max(0, k2 - 1), k + 1)]
             good = any(same(got, a) for a in alt)
-        run.check(good, 'REF.lookup', 'PiecewiseCovEffect.get_UoRT', label + ' / x ' + txt,
-                  'at coverage %s the value is %s, expected piece %d: %s' % (txt, show(got, 120), k, show(want, 120)),
-                  mod, fn)
+        # the right slope with another offset: the pieces do not join (continuity); anything else: wrong piece
+        offset_only = not good and isinstance(got, Rat) and D.d(got - want, 'xq').iszero()
+        run.check(good, 'REF.continuity' if offset_only else 'REF.lookup', 'PiecewiseCovEffect.get_UoRT',
+                  label + ' / x ' + txt,
+                  'at coverage %s the value is %s, expected piece %d of the continuous piecewise-linear energy that '
+                  'starts at 0: %s' % (txt, show(got, 120), k, show(want, 120)), mod, fn)
         # energy is independent of temperature
         run.check(isinstance(got, Rat) and D.d(got * T, 'T').iszero(), 'DERIV.T-free', 'PiecewiseCovEffect.get_UoRT',
                   label + ' / x ' + txt, 'T*U/RT depends on temperature', mod, fn)
@@ -114,18 +117,19 @@ def invariants(run, w, label, owner_fn):
 
 def check(run, repo):
     run.explanation = (
-        'PiecewiseCovEffect is interpreted abstractly through its real constructor, insert, pop, _set_intercepts and '
+        'PiecewiseCovEffect is interpreted abstractly through its real constructor, insert, pop and '
         'get_UoRT with symbolic breakpoints and slopes whose ordering is supplied by an ordering oracle. After every '
         'sequence of operations (1-3 initial breakpoints; up to 2 (quick) / 3 (thorough) inserts below, between, '
         'equal to and above the existing breakpoints and pops) the lists are compared with the reference sorted pair '
-        'list kept by the checker: ascending order, slope pairing, equal lengths, the continuity recurrence of the '
-        'intercepts starting at 0, and get_UoRT on, between and beyond the breakpoints equals slope*x+intercept of '
-        'the containing piece divided by RT, independent of T; S, Cv, Cp are 0; to_dict/from_dict rebuilds the same '
+        'list kept by the checker: ascending order, slope pairing, equal lengths, and get_UoRT on, between and '
+        'beyond the breakpoints equals slope*x+intercept of the containing piece divided by RT, the intercepts being '
+        'the checker\'s own continuity recurrence starting at 0 (only the documented attributes intervals and slopes '
+        'are read), independent of T; S, Cv, Cp are 0; to_dict/from_dict rebuilds the same '
         'lists.')
     run.assumptions = ['np.argmax of a boolean array is the index of the first True and 0 when there is none']
     run.undecided = ['numeric evaluation with floating-point breakpoints']
     ci = repo.cls(COV)
-    for m_ in ('__init__', 'insert', 'pop', '_set_intercepts', 'get_UoRT', 'to_dict', 'from_dict'):
+    for m_ in ('__init__', 'insert', 'pop', 'get_UoRT', 'to_dict', 'from_dict'):
         run.fn(COV + '.' + m_)
     depth = 3 if run.tier == 'thorough' else 2
     n_seq = 0
@@ -228,7 +232,13 @@ def check(run, repo):
         snap = dict(d.d)
         o2 = w.I.call_function(owner.module, fn, [], {'json_obj': DictV(dict(d.d))}, self_obj=ci, owner=owner)
         ok = isinstance(o2, Obj) and all(same(o2.attrs.get(k), w.obj.attrs.get(k))
-                                         for k in ('intervals', 'slopes', '_intercepts', 'name_i', 'name_j'))
+                                         for k in ('intervals', 'slopes', 'name_i', 'name_j'))
+        if ok:
+            # and it evaluates like the original (whatever private state the reload has to rebuild)
+            w.ranks['xq'] = Fr(17)
+            xq2, Tq2 = w.I.D.sym('xq'), w.I.D.sym('Tq')
+            ok = same(w.I.call_method(o2, 'get_UoRT', [], {'x': xq2, 'T': Tq2}),
+                      w.I.call_method(w.obj, 'get_UoRT', [], {'x': xq2, 'T': Tq2}))
         run.check(ok, 'TABLE.roundtrip', 'PiecewiseCovEffect.from_dict', 'to_dict->from_dict',
                   'reloading the serialised model does not rebuild the same breakpoints/slopes/intercepts (%s)'
                   % show(o2), owner.module, fn)
